@@ -73,10 +73,16 @@ type info struct {
 	CaseTimeoutS    float64  `json:"case_timeout_s"`
 }
 
-func build(work string, race bool) string {
+func build(work string, race bool) string { return buildVariant(work, race, false) }
+
+// buildVariant: fuzz = instrumented for the native coverage-guided engine
+func buildVariant(work string, race, fuzz bool) string {
 	out := filepath.Join(work, "props.test")
 	args := []string{"test", "-c", "-tags", "verif", "-o", out}
-	if race {
+	if fuzz {
+		out = filepath.Join(work, "props.fuzz.test")
+		args = []string{"test", "-c", "-tags", "verif", "-gcflags=all=-d=libfuzzer", "-o", out}
+	} else if race {
 		out = filepath.Join(work, "props.race.test")
 		args = []string{"test", "-c", "-race", "-tags", "verif", "-o", out}
 	}
@@ -524,6 +530,54 @@ func envInt(name string, def int) int {
 	return def
 }
 
+// nativeFuzzSeconds: properties with a native fuzz phase in the thorough tier, and its length
+var nativeFuzzSeconds = map[string]int{"C03": 120, "C05": 120, "C06": 240, "C07": 240, "C08": 120, "C17": 120, "C18": 180, "C19": 120, "C20": 240}
+
+var reFuzzLine = regexp.MustCompile(`fuzz: elapsed: (\d+)s, execs: (\d+) \(\d+/sec\), new interesting: (\d+) \(total: (\d+)\)`)
+
+func runNativeFuzz(work, id, ledgerPath string, seconds int) (map[string]interface{}, []core.ViolationRec) {
+	bin := buildVariant(work, false, true)
+	dir := filepath.Join(work, "fuzz")
+	os.MkdirAll(dir, 0o755)
+	prefix := filepath.Join(dir, "viol")
+	cmd := exec.Command(bin, "-test.run", "^$", "-test.fuzz", "^FuzzProp$", "-test.fuzztime", fmt.Sprintf("%ds", seconds),
+		"-test.fuzzcachedir", filepath.Join(dir, "cache"), "-test.timeout", fmt.Sprintf("%ds", seconds+600),
+		"-vprop", id, "-vledger", ledgerPath, "-vout", prefix)
+	cmd.Dir = dir
+	cmd.Env = goEnv()
+	var buf bytes.Buffer
+	cmd.Stdout, cmd.Stderr = &buf, &buf
+	err := cmd.Run()
+	out := buf.String()
+	ev := map[string]interface{}{"engine": "go test -fuzz (coverage-guided, through rapid.MakeFuzz)", "seconds_requested": seconds,
+		"reproducible_by_seed": false}
+	if ms := reFuzzLine.FindAllStringSubmatch(out, -1); len(ms) > 0 {
+		m := ms[len(ms)-1]
+		a, _ := strconv.Atoi(m[1])
+		b, _ := strconv.Atoi(m[2])
+		c, _ := strconv.Atoi(m[4])
+		ev["seconds"], ev["execs"], ev["interesting_inputs"] = a, b, c
+	}
+	var viol []core.ViolationRec
+	files, _ := filepath.Glob(prefix + ".*.json")
+	for _, f := range files {
+		b, e := os.ReadFile(f)
+		if e != nil {
+			continue
+		}
+		var rec core.ViolationRec
+		if json.Unmarshal(b, &rec) == nil {
+			viol = append(viol, rec)
+		}
+	}
+	if err != nil && len(viol) == 0 {
+		// the fuzzing process failed without a recorded violation (worker death, engine error)
+		ev["engine_error"] = tail(out, 1500)
+	}
+	ev["violations"] = len(viol)
+	return ev, viol
+}
+
 func runCheck(id, tier, work string) int {
 	seed := uint64(1)
 	if v := os.Getenv("VERIF_SEED"); v != "" {
@@ -632,6 +686,17 @@ func runCheck(id, tier, work string) int {
 	}
 	wg.Wait()
 
+	// 2b. native coverage-guided campaign (thorough tier, pure-function properties): the fuzzer's bytes
+	// drive the same generator through rapid.MakeFuzz, the oracle and the ledger triage are the same
+	var fuzzEv map[string]interface{}
+	var fuzzViol []core.ViolationRec
+	if fs := nativeFuzzSeconds[id]; tier == "thorough" && fs > 0 && os.Getenv("VERIF_NOFUZZ") == "" {
+		if v := envInt("VERIF_FUZZ_SECONDS", 0); v > 0 {
+			fs = v
+		}
+		fuzzEv, fuzzViol = runNativeFuzz(work, id, ledgerPath, fs)
+	}
+
 	// 3. merge
 	ev := 0
 	nt := map[uint64]struct{}{}
@@ -724,6 +789,13 @@ func runCheck(id, tier, work string) int {
 		knownSeen[k] = true
 	}
 
+	violations = append(violations, fuzzViol...)
+	if fuzzEv != nil {
+		if e, ok := fuzzEv["engine_error"]; ok {
+			notes = append(notes, "native fuzz phase ended with an engine error (no violation recorded): "+fmt.Sprint(e))
+		}
+	}
+
 	// 4. violations -> replay files (deduplicated by signature)
 	bySig := map[string]core.ViolationRec{}
 	for _, v := range violations {
@@ -789,6 +861,7 @@ func runCheck(id, tier, work string) int {
 			"restarts":             restarts,
 			"requested_cases":      total,
 			"fixed_witnesses_replayed": fixedChecked,
+			"fuzz":                 fuzzEv,
 			"exhaustive":           len(exhNotes) > 0 && len(infraMsgs) == 0 && !timedOut,
 			"exhaustive_note":      strings.Join(uniq(exhNotes), "; "),
 			"exhaustive_evaluations": exhEval,
